@@ -213,12 +213,12 @@ Proof. exists w_daynum. repeat split; vm_compute; reflexivity. Qed.
    day is translated to 0.16666666666638888 h, which is not the double nearest to 1/6 (it is 1250 ulp away) *)
 Definition w_split : tcase :=
   tw (Some s_DATE) [(1#1, s_of [49;50;58;48;48], s_of [49;47;49;47;50;48;50;48]); (1#1, s_of [49;50;58;49;48], s_of [49;47;49;47;50;48;50;48])].
-Theorem split_truncation_refuted :
-  exists c : tcase,
-    g_split_exact c = false /\ g_three_parts c = true /\ g_has_date c = true /\ g_no_daynum c = true /\
-    exists h, translate_model (t_datecol c) (t_ids c) (t_times c) (t_dates c) = Ok [CNum 0; CNum h] /\
-              Qeq_bool h (round_double (1 # 6)) = false /\ near_ulp (1 # 6) h = false /\ near (1 # 6) h = true.
+(* FIXED by a9224f5: 12:00 -> 12:10 on the same day is now the double nearest to 1/6 *)
+Example split_truncation_fixed :
+  g_three_parts w_split = true /\ g_has_date w_split = true /\ g_no_daynum w_split = true /\
+  exists h, translate_model (t_datecol w_split) (t_ids w_split) (t_times w_split) (t_dates w_split) = Ok [CNum 0; CNum h] /\
+            Qeq_bool h (round_double (1 # 6)) = true /\ model_vs_spec w_split = true.
 Proof.
-  exists w_split. repeat split; try (vm_compute; reflexivity).
-  exists (6004799503150653 # 36028797018963968). repeat split; vm_compute; reflexivity.
+  repeat split; try (vm_compute; reflexivity).
+  exists (6004799503160661 # 36028797018963968). repeat split; vm_compute; reflexivity.
 Qed.
